@@ -16,17 +16,39 @@ import (
 const (
 	// A component nested inside a commitment / response (below the level whose presence the
 	// compilers' UnmarshalCBOR checks) that is CBOR null or missing is dereferenced by Verify.
+	// In nested compositions whose outer level verifies its branches in errgroup goroutines (sigand.Compose /
+	// sigor.Compose around sigor / cartesian compositions) the dereference happens inside such a goroutine and
+	// cannot be recovered: the verifier's PROCESS dies. Those inputs are therefore not executed at all (crashRisk).
 	knownNilComponent = "C08-nil-component-panic"
+	// sigor.CartesianCompose: Verify XORs E0 and E1 over min(len) bytes and slices E0/E1 to the challenge
+	// length without checking their lengths, so a response whose E0 or E1 carries surplus trailing bytes
+	// still verifies (under Fiat-Shamir always; under the Fischlin transforms when the hash target is met).
+	knownOrcLength = "C08-orc-challenge-length-malleable"
 )
 
-var knownIDs = []string{knownNilComponent}
+var knownIDs = []string{knownNilComponent, knownOrcLength}
 
 func matchKnown(in inst, cn compiler.Name, m mutation, violation, panicMsg string) string {
 	switch {
-	case violation == "panic" && strings.Contains(panicMsg, "nil pointer dereference") && (m.op == "null" || m.op == "map-drop"):
+	case violation == "panic" && (strings.Contains(panicMsg, "nil pointer dereference") || strings.Contains(panicMsg, "called using nil")) &&
+		(m.op == "null" || m.op == "map-drop"):
 		return knownNilComponent
+	case violation == "accepted" && m.op == "bstr-extend" && strings.Contains(in.Shape(), "orc(") &&
+		(strings.HasSuffix(m.class, ".E0") || strings.HasSuffix(m.class, ".E1")):
+		return knownOrcLength
 	}
 	return ""
+}
+
+// crashRisk: the inputs of C08-nil-component-panic whose nil dereference would happen inside an errgroup
+// goroutine of an n-ary composition (observed: and^2(or^2(S)) under Fiat-Shamir with Z[i] = null dies in
+// sigor.(*Protocol).Verify called from sigand.(*Protocol).Verify.func1). They are excluded without being run.
+func crashRisk(in inst, m mutation) bool {
+	if m.op != "null" && m.op != "map-drop" {
+		return false
+	}
+	sh := in.Shape()
+	return (strings.HasPrefix(sh, "and^") && strings.Contains(sh, "(or^")) || (strings.HasPrefix(sh, "or^") && strings.Contains(sh, "(andc("))
 }
 
 // applyAt applies a deterministic variant of op at site s of a decoded tree; false: not applicable.
@@ -144,6 +166,10 @@ func TestTamperEveryClass(t *testing.T) {
 					base = op[:strings.LastIndexByte(op, '-')]
 				}
 				m := mutation{op: base, class: s.class, path: s.path, bytes: r2.encode()}
+				if crashRisk(in, m) {
+					vlib.Excluded(knownNilComponent)
+					continue
+				}
 				sites++
 				canonM, derr := in.Canon(pr.cn, m.bytes)
 				verdict := "reject:value-changed"
